@@ -134,6 +134,7 @@ impl VFileIdx {
 // stored order.  Nothing is promised for offsets outside the ghost tree or for the other byte order.
 // The file content does not change; one log entry per call.
 //@extract fn bigtools/src/bbi/bbiread.rs read_node
+//@rule R16
 //@skipbody
 //@sub /pub\(crate\) fn read_node<R: SeekableRead>/ => fn read_node
 //@sub /file: &mut R/ => file: &mut VFileIdx
@@ -152,6 +153,7 @@ impl VFileIdx {
 // yields THE bytes of that block -- a function of the immutable file and the block only (deterministic
 // inflate).  The file content does not change; one log entry per call.
 //@extract fn bigtools/src/bbi/bbiread.rs read_block_data
+//@rule R16
 //@skipbody
 //@sub /fn read_block_data<R: SeekableRead>/ => fn read_block_data
 //@sub /read: &mut R/ => read: &mut VFileIdx
@@ -229,6 +231,7 @@ spec fn cache_ok(c: CachedBBIFileRead) -> bool {
 impl CachedBBIFileRead {
 
 //@extract method bigtools/src/bbi/bbiread.rs get_block_data "BBIFileRead for CachedBBIFileRead"
+//@rule R16
 //@sub /io::Result<Vec<u8>>/ => Result<Vec<u8>, IoError>
 //@ret r
 //@sig
@@ -264,6 +267,7 @@ impl CachedBBIFileRead {
 // The substitutions after `.collect()` have 0 hits on /repo: they map iterator adaptors with closures
 // (unsupported by Verus) to the `unknown_*` stand-ins so that an edit using them is judged by the contract.
 //@extract method bigtools/src/bbi/bbiread.rs blocks_for_cir_tree_node "BBIFileRead for CachedBBIFileRead"
+//@rule R16
 //@sub /io::Result<\((.*)\)>/ => Result<(\1), IoError>
 //@sub /SmallVec<\[([^;\]]+); 4\]>/ => Vec<\1> min=2
 //@sub /smallvec!\[\]/ => Vec::new() min=0
@@ -309,6 +313,7 @@ impl CachedBBIFileRead {
 //@end
 
 //@extract method bigtools/src/bbi/bbiread.rs reopen "Reopen for CachedBBIFileRead"
+//@rule R16
 //@sub /io::Result<Self>/ => Result<Self, IoError>
 //@ret r
 //@sig
@@ -330,6 +335,7 @@ impl CachedBBIFileRead {
 
 // `new` (impl<S: SeekableRead> CachedBBIFileRead<S>): a fresh caching reader is coherent (both caches empty).
 //@extract method bigtools/src/bbi/bbiread.rs new "^impl<S: SeekableRead> CachedBBIFileRead<S>"
+//@rule R16
 //@sub /pub fn new/ => fn new
 //@sub /read: S\)/ => read: VFileIdx)
 //@ret r
@@ -348,6 +354,7 @@ impl CachedBBIFileRead {
 // the same extraction as in unit rt_search, the contract stated in the same terms.
 impl VFileIdx {
 //@extract method bigtools/src/bbi/bbiread.rs blocks_for_cir_tree_node "BBIFileRead for S\b"
+//@rule R16
 //@sub /io::Result<\((.*)\)>/ => Result<(\1), IoError>
 //@sub /SmallVec<\[([^;\]]+); 4\]>/ => Vec<\1> min=2
 //@sub /smallvec!\[\]/ => Vec::new() min=0
@@ -366,6 +373,7 @@ impl VFileIdx {
 //@end
 
 //@extract method bigtools/src/bbi/bbiread.rs get_block_data "BBIFileRead for S\b"
+//@rule R16
 //@sub /io::Result<Vec<u8>>/ => Result<Vec<u8>, IoError>
 //@ret r
 //@sig
